@@ -52,19 +52,23 @@ def discriminator_key_if_absent(ctx, rule):
     model = ctx.model
     da = model.func(f"{SER_MOD}.DiscriminatedAlternative.serialize")
     st = [n for n in walk_no_nested(da.node) if isinstance(n, ast.Subscript) and isinstance(n.ctx, ast.Store) and norm(n.slice) == "self.alias"]
-    parents = {c: p for p in ast.walk(da.node) for c in ast.iter_child_nodes(p)}
+    from ..boolx import BoolEval, Unknown
+    from ..pathcond import complements, parents_of, path_condition
+    pm = parents_of(da.node)
+    ev = BoolEval(complements({"isinstance(res, dict)": "is_dict", "self.alias not in res": "!present"}))
     ok = bool(st)
-    for n in st:
-        p = parents.get(n)
-        guarded = False
-        while p is not None:
-            if isinstance(p, ast.If) and "self.alias not in res" in norm(p.test) and "isinstance(res, dict)" in norm(p.test):
-                guarded = True
-            p = parents.get(p)
-        ok = ok and guarded
+    try:
+        for n in st:
+            got = ev.compile(path_condition(da.node, n, pm))
+            for is_dict in (False, True):
+                for present in (False, True):
+                    if bool(got({"is_dict": is_dict, "present": present})) != (is_dict and not present):
+                        ok = False
+    except Unknown as err:
+        ctx.undecided(rule, f"{da.qualname}: {err}")
     ctx.check(ok, rule, da.qualname, st[0] if st else da.node.body[0],
-              "the discriminator key is written even when the alternative's own serialization already produced it: a member declaring the discriminator as a multi-valued Literal field gets its value overwritten by the alternative's key and no longer round-trips",
-              da, da.node, detail="res[self.alias] = self.key only if res is a dict and the key is absent")
+              "the discriminator key is not written exactly when the member's serialization is a dict lacking it: written over an existing value (a member declaring the discriminator as a multi-valued Literal field no longer round-trips), into a non-dict, or not at all",
+              da, da.node, detail="res[self.alias] = self.key iff res is a dict and the key is absent")
     # every alternative of a discriminated union is wrapped: whether the key is present is a run-time fact
     # (exclude_defaults / exclude_unset / skip can drop a declared field), never a build-time one
     dm = model.func("apischema.serialization.SerializationMethodVisitor.discriminate")
@@ -304,6 +308,7 @@ def mutants(mb):
     mb.add_text("expected-class-default-object", "apischema/serialization/__init__.py", "    else:\n        raise TypeError(f\"{tp} is not supported in union serialization\")", "    else:\n        return object", "C13.R4", "expected_class")
     mb.add_text("discriminator-key-overwrites", S, "        if isinstance(res, dict) and self.alias not in res:\n            res[self.alias] = self.key", "        if isinstance(res, dict):\n            res[self.alias] = self.key", "C13.R4", "DiscriminatedAlternative")
     counter_mutants(mb, "C13.R5")
+    mb.add_text("discriminator-key-guard-or", S, "        if isinstance(res, dict) and self.alias not in res:", "        if isinstance(res, dict) or self.alias not in res:", "C13.R4", "DiscriminatedAlternative")
     mb.add_text("discriminator-key-forgotten", M, "            if isinstance(data, Discriminated):\n                discriminator = data.discriminator\n                data = data.data\n                if not isinstance(data, dict):\n                    raise bad_type(data, dict)\n            else:\n                raise bad_type(data, dict)\n        values: dict = {}", "            if isinstance(data, Discriminated):\n                data = data.data\n                if not isinstance(data, dict):\n                    raise bad_type(data, dict)\n            else:\n                raise bad_type(data, dict)\n        values: dict = {}", "C13.R6", "ObjectMethod:discriminated")
     mb.add_text("discriminator-wrap-dropped", M, "            return method.deserialize(Discriminated(self.alias, data))", "            return method.deserialize(data)", "C13.R6", "wrap")
     mb.add_text("neg-exclusion-rewritten", D, "                and not (float in method_by_cls and int not in method_by_cls)\n", "                and (float not in method_by_cls or int in method_by_cls)\n", negative=True)
